@@ -233,6 +233,27 @@ def run(facts, res):
             if not ok:
                 res.violation("T4", "get_value|unchecked-revision", "get_value can read an arbitrary requested revision without checking that it belongs to the object's tree", gv.loc(t.line))
         res.floor("T4", "historical read in get_value", n, 1)
+        # T4b: the value handed back for a revision is the object recorded at that revision: nothing get_value returns derives from the
+        # tree's *current* leaf set or winner-dependent merge (get_merged_order_at_revision / get_leafs) - a historical lookup that merges
+        # in today's leaves shows, after time travel or for an old revision, elements that were not there
+        from ..flows import flow_of as _fo14
+        from ..common import members_of as _mo14
+        leaky = []
+        for mb_ in _mo14(facts, gv):
+            fl_ = _fo14(mb_)
+            src_ = fl_.local_sources(0)
+            for cb_ in fl_.call_blocks(src_):
+                c_ = mb_.blocks[cb_].term.callee
+                if c_ is not None and (c_.name in ("get_leafs",) or c_.target() in {b_.path for b_ in facts.repo_bodies()
+                                                                                     if any(t_.callee is not None and t_.callee.target() == "utils::merge_arrays" for _, t_ in b_.calls())}):
+                    leaky.append((mb_, cb_, c_.name))
+        res.instance("T4", "get_value returns the recorded object of the revision (sources of the returned value that depend on the current leaf set: %s)" % (
+            sorted({x[2] for x in leaky})), gv.loc())
+        if leaky:
+            mb_, cb_, nm_ = leaky[0]
+            res.violation("T4", "get_value|value-depends-on-current-leaves:%s" % nm_,
+                          "get_value can hand back a value computed from the tree's current leaf set (%s) instead of the object recorded at the requested "
+                          "revision: an old revision of an array shows elements merged in from today's leaves" % nm_, mb_.loc(mb_.blocks[cb_].term.line))
     gp = facts.body("melda::Melda::get_parent_revision")
     if gp is not None:
         uses = [t.callee.target() for _, t in gp.calls() if t.callee is not None and (t.callee.impl_self or "").startswith(("revisiontree::", "datastorage::"))]
